@@ -10,7 +10,7 @@ values a harness can observe at each of them.
 """
 
 
-from models.sm_model import SMModel
+from models.sm_model import SMModel, StateRaised
 from models.sa_model import SAModel
 
 
@@ -72,6 +72,7 @@ class RobotModel:
         self.fb_nt = {}
         self.faults_fired = 0
         self.p = period_us(cfg)
+        self.p_next = self.p       # control_loop_wait_time as the robot object holds it now; a mode latches it on entry
         self.expiry = None
         self.cap = cfg["cap_waits"]
         self.comps = declared_order(cfg)
@@ -91,15 +92,26 @@ class RobotModel:
             def on_call(self, st, tm, state_tm, initial, in_eng, started):
                 model.sm_calls += 1
                 site = f"{self.prefix}.st.{st}"
-                n = model.cb(site, [tm, state_tm, initial])
+                fault = None
+                try:
+                    n = model.cb(site, [tm, state_tm, initial])
+                except ModelFault as f:
+                    # the state function performs its action and then raises: the machine abandons the iteration there
+                    n, fault = f.visit, f
+                act = None
                 for a in list(model.ev.get((site, n), ())) + list(model.ev.get((site, "*"), ())):
                     if a[0] == "smnext":
-                        return ("next", a[1], 0)
-                    if a[0] == "smnow":
-                        return ("now", a[1], 0)
-                    if a[0] == "smdone":
-                        return ("done", None, 0)
-                return None
+                        act = ("next", a[1], 0)
+                    elif a[0] == "smnow":
+                        act = ("now", a[1], 0)
+                    elif a[0] == "smdone":
+                        act = ("done", None, 0)
+                    if act:
+                        break
+                if fault is not None:
+                    model.pending_fault = fault
+                    act = ((act[0], act[1], 0) if act else (None, None, 0)) + (True,)
+                return act
 
             def on_done(self):
                 model.sm_stops += 1
@@ -120,6 +132,7 @@ class RobotModel:
                 self.mode_models[m["name"]] = ("sa", SAModel(dict(m["machine"], vars=[]), exact=bool(cfg["dyadic"])))
         self.sm_calls = 0
         self.sm_stops = 0
+        self.pending_fault = None
 
     # ------------------------------------------------------------ callbacks
     def snapshot(self):
@@ -151,6 +164,8 @@ class RobotModel:
                 self.autosel = a[1]
             elif k == "utia":
                 self.utia = bool(a[1])
+            elif k == "period":
+                self.p_next = int(a[1] * 1e6)
             elif k == "select":
                 self.sel_pending = a[1]
             elif k == "end":
@@ -202,7 +217,16 @@ class RobotModel:
             sm.dur[state] = value
 
     def _sm_step(self, prefix, sm, fn):
-        fn()
+        try:
+            fn()
+        except StateRaised:
+            # a state function raised inside the machine's iteration: the exception leaves the component's execute() /
+            # the mode's on_iteration() like any other user-code fault
+            sm.take()
+            f, self.pending_fault = self.pending_fault, None
+            if self.ds["fms"]:
+                return
+            raise f
         sm.take()
         self.note(f"{prefix}.post", [sm.executing, sm.cs])
 
@@ -235,6 +259,8 @@ class RobotModel:
                 self.autosel = a[1]
             elif k == "utia":
                 self.utia = bool(a[1])
+            elif k == "period":
+                self.p_next = int(a[1] * 1e6)
             elif k == "select":
                 self.sel_pending = a[1]
             elif k == "end":
@@ -326,6 +352,7 @@ class RobotModel:
         it = 0
         self._all("on_disable")
         self.guarded("robot.disabledInit")
+        self.p = self.p_next
         self.expiry = self.now + self.p
         while not self.done:
             if self.ds["enabled"]:
@@ -341,6 +368,7 @@ class RobotModel:
         it = 0
         self._all("on_enable")
         self.guarded("robot.teleopInit")
+        self.p = self.p_next
         self.expiry = self.now + self.p
         while not self.done:
             if not (self.ds["enabled"] and self.ds["mode"] == "teleop"):
@@ -369,6 +397,7 @@ class RobotModel:
         self._all("on_enable")
         self.guarded("robot.autonomousInit")
         utia = self.utia           # the flag as it is when the period starts
+        self.p = self.p_next       # ... and the loop period
         m = self.selected_mode()
         t0 = self.now
         mm = self.mode_models.get(m) if m is not None else None
@@ -409,6 +438,7 @@ class RobotModel:
         self.mode_nt = "test"
         it = 0
         self.guarded("robot.testInit")
+        self.p = self.p_next
         self.expiry = self.now + self.p
         while not self.done:
             if not (self.ds["enabled"] and self.ds["mode"] == "test"):
